@@ -177,6 +177,8 @@ func replayCmd(args []string) int {
 		code := replayStack(rf)
 		if code == 1 {
 			fmt.Printf("VIOLATION property=%s replay=%s\n", rf.Property, file)
+		} else if code == 0 {
+			fmt.Printf("NOT-REPRODUCED property=%s replay=%s\n", rf.Property, file)
 		}
 		return code
 	}
